@@ -4,6 +4,7 @@ import re
 import shutil
 import subprocess
 import tempfile
+import sys
 import time
 
 import z3
@@ -341,6 +342,8 @@ def discharge(ctx, name, goal, info=None):
                 info["unknown_reason"] = "z3: %s; cvc5: %s" % (reason, msg or res)
     dt = time.time() - t0
     eng.stats["solver_time"] += dt
+    if dt > 5 and os.environ.get("PYVC_SLOW_LOG"):
+        sys.stderr.write("SLOW %.1fs %s %s %s\n" % (dt, status, backend, name))
     ob = Oblig(name, status, model, dt, backend, info, size)
     return ob
 
